@@ -70,7 +70,13 @@ def run_one(prop, tier, seed, i, n, scratch, timeout, replay=None):
     # str/bytes hashing (set and dict-of-str iteration order) differs between real processes: shard 0 keeps 0, the others get a
     # seed derived from (VERIF_SEED, shard); a replay runs under the seed recorded with the violation
     env["PYTHONHASHSEED"] = os.environ.get("VF_HASHSEED") or ("0" if i == 0 else str((seed * 1000003 + i * 7919 + 1) % 2**32))
-    cmd = [PY, "-m", "vf.shard", prop, tier, str(seed), str(i), str(n), sdir, out]
+    # ... and the interpreter's optimisation level: one shard in eight runs under 'python -O' (PYTHONOPTIMIZE=1 in many
+    # deployments), where assert statements are compiled away
+    optimize = os.environ.get("VF_OPTIMIZE") == "1" or (os.environ.get("VF_OPTIMIZE") is None and i % 8 == 6)
+    cmd = [PY] + (["-O"] if optimize else []) + ["-m", "vf.shard", prop, tier, str(seed), str(i), str(n), sdir, out]
+    env["PYTHONOPTIMIZE"] = "1" if optimize else ""
+    if not optimize:
+        env.pop("PYTHONOPTIMIZE")
     cwd = HERE
     if replay:
         cmd.append(replay)
@@ -79,6 +85,9 @@ def run_one(prop, tier, seed, i, n, scratch, timeout, replay=None):
                 rj = json.load(f)
             if rj.get("hash_seed") is not None:
                 env["PYTHONHASHSEED"] = str(rj["hash_seed"])
+            if rj.get("optimize") and "-O" not in cmd:
+                cmd.insert(1, "-O")
+                env["PYTHONOPTIMIZE"] = "1"
         except Exception:  # noqa
             pass
     elif i % 2 == 1:
@@ -168,7 +177,7 @@ def drive(mod, prop, tier, seed, scratch, replay, t0):
             if len(merged["samples"]) < 8:
                 merged["samples"].append(s)
         for k, v in rep["violations"].items():
-            m = merged["violations"].setdefault(k, {"count": 0, "msg": v["msg"], "cases": [], "host_tz": rep.get("host_tz"), "hash_seed": rep.get("hash_seed")})
+            m = merged["violations"].setdefault(k, {"count": 0, "msg": v["msg"], "cases": [], "host_tz": rep.get("host_tz"), "hash_seed": rep.get("hash_seed"), "optimize": rep.get("optimize")})
             m["count"] += v["count"]
             m["cases"].extend(v["cases"][: max(0, 3 - len(m["cases"]))])
         for k, v in rep["counters"].items():
@@ -237,7 +246,7 @@ def drive(mod, prop, tier, seed, scratch, replay, t0):
         rpath = os.path.join(rdir, safe_name(key) + ".json")
         with open(rpath, "w") as f:
             json.dump({"property": prop, "key": key, "msg": v["msg"], "count": v["count"],
-                       "seed": seed, "tier": tier, "host_tz": v.get("host_tz"), "hash_seed": v.get("hash_seed"), "case": v["cases"][0] if v["cases"] else None,
+                       "seed": seed, "tier": tier, "host_tz": v.get("host_tz"), "hash_seed": v.get("hash_seed"), "optimize": v.get("optimize"), "case": v["cases"][0] if v["cases"] else None,
                        "more_cases": v["cases"][1:]}, f, indent=1)
         lines.append(f"VIOLATION property={prop} replay={rpath}")
         lines.append(f"  key={key} count={v['count']} :: {v['msg'][:300]}")
